@@ -128,18 +128,13 @@ def run_pow2(ctx, vs):
     return dis
 
 
-def main_lines_check(ctx):
-    """the padded-length lines of main.cpp the model speaks of (text-level tie, no translator yet)"""
-    import os, re
-    txt = open(os.path.join(REPO, "src", "main.cpp")).read()
-    want = [r"spacing_bins\s*=\s*std::round\(\s*ps_bins\s*\*\s*spacing_ps\s*\)",
-            r"padded_bins\s*=\s*std::ceil\(\s*ps_bins\s*\*\s*padding\s*\)",
-            r"padded_bins\s*=\s*upper_power_of_two\(\s*padded_bins\s*\)",
-            r"spaced_bins\s*=\s*std::ceil\(\s*ps_bins\s*\*\s*nbuckets\s*\*\s*spacing_ps\s*\)",
-            r"spaced_bins\s*=\s*upper_power_of_two\(\s*spaced_bins\s*\)"]
-    missing = [w for w in want if not re.search(w, txt)]
-    ctx.extra["main_cpp_padding_lines_found"] = len(want) - len(missing)
-    return missing
+def program_padding(ctx):
+    """(family scaling) the padded lengths and the bucket spacing main() derives, observed in the results file of the
+    binary and compared with the formulas of the property text for that command line (lib/scaling_cases.py).  The
+    statements of main() themselves are tied by the translator Gen_ScalingZ (theorems C06_main_*)."""
+    import scaling_cases as sc
+    tg = ctx.build(harness=("impl_dft", "h5cat"), want_binary=True)
+    sc.program_padding(ctx, tg, 5 if ctx.quick() else 40)
 
 
 def run(ctx, only=None):
@@ -181,10 +176,7 @@ def run(ctx, only=None):
                           observed=[str(v) for v in ir[c.cid]["top"]], sig=dict(kind="wake", clause="fresh-top"))
     oracle_groups(ctx, groups, ir)
     dis += run_pow2(ctx, pow2_cases(ctx, 200 if ctx.quick() else 5000))
-    missing = main_lines_check(ctx)
-    if missing:
-        dis.append(dict(case=dict(kind="main.cpp", missing=missing), detail="padded-length statements of main.cpp changed shape",
-                        sig=dict(kind="padlen", stage="translation")))
+    program_padding(ctx)
     ctx.sample(mcases[0].describe())
     ctx.sample(ocases[0].describe())
     ctx.sample(dict(relation=groups[0]["kind"], **groups[0]["cases"][0].describe()))
@@ -196,12 +188,24 @@ def run(ctx, only=None):
                         "FFTW's planner and kernels are not modelled: an FFT is the abstract DFT (r2c/c2r definitions of the FFTW manual)",
                         "fresh object: cell nmax/2 of _wakelosses is zero (monitored on every case)",
                         "bucket_b*spacing + n <= nmax (writes beyond the buffer belong to C17)",
-                        "main.cpp padded-length lines are tied by a text check and by upper_power_of_two correspondence, not by a translator"]
+                        "main()'s padded-length statements are read by the translator Gen_ScalingZ on every run (theorems C06_main_*); the double spacing_ps "
+                        "is an input of that model (its expression is evaluated in double precision for the program-level runs, lib/scaling_eval.py)"]
     conclude(ctx, coq, dis)
 
 
 def replay(ctx, rp):
     c = rp.get("case") or {}
+    if c.get("kind") == "program-padding":
+        import scaling_cases as sc, tempfile, shutil
+        tg = ctx.build(harness=("impl_dft", "h5cat"), want_binary=True)
+        work = tempfile.mkdtemp(prefix="c06pad-")
+        try:
+            sc.check_padding_run(ctx, tg, dict(c["config"]), work, "r")
+        finally:
+            shutil.rmtree(work, ignore_errors=True)
+        ctx.case_done(("program-padding", "replay"), True)
+        ctx.rule = "replay of one recorded program-level padding case"
+        return
     if c.get("kind") != "wake":
         return run(ctx)
     fx = lambda l: [float.fromhex(v) for v in l]
